@@ -2,6 +2,7 @@ import KrroodVerif.Sexp
 import KrroodVerif.Model.Dom
 import KrroodVerif.Model.Eql
 import KrroodVerif.Drive.EqlParse
+import KrroodVerif.Drive.C01
 namespace KrroodVerif.Drive.C03
 open KrroodVerif KrroodVerif.Dom
 
@@ -46,14 +47,21 @@ def runMulti (items : List Sexp) : Option String := do
   let subs := (Sexp.field? items "sub").getD []
   let qs ← Sexp.field? items "queries"
   let parsed ← qs.mapM fun s => match s with
-    | .list (.atom "qq" :: parts) =>
-      parseCase (.list (.atom "q" :: (parts ++ [.list (.atom "objs" :: objs), .list (.atom "doms" :: doms), .list (.atom "sub" :: subs)])))
+    | .list (.atom "qq" :: parts) => do
+      let (w, q) ← parseCase (.list (.atom "q" :: (parts ++ [.list (.atom "objs" :: objs), .list (.atom "doms" :: doms), .list (.atom "sub" :: subs)])))
+      pure (evalQuery w q.toQuery)
+    -- a query with nested sub-query operands (`an(entity(y, …))` inside a comparison): Model/EqlSub.lean
+    | .list (.atom "qqx" :: parts) => do
+      let sel ← (← Sexp.field? parts "sel").mapM parseTerm
+      let c ← match Sexp.field? parts "cond" with | some [e] => KrroodVerif.Drive.C01.parseXS e | _ => none
+      let w : World := { objs := ← objs.mapM parseObj, doms := ← doms.mapM parseDom }
+      pure (evalQueryX w sel (buildX c))
     | _ => none
   let outs := order.map fun (qi, k) =>
     match parsed[qi]? with
     | none => "bad-query-index"
-    | some (w, q) =>
-      match evalQuery w q.toQuery with
+    | some res =>
+      match res with
       | .error e => errName e
       | .ok rows =>
         let rows := if k < 0 then rows else rows.take k.toNat
